@@ -26,6 +26,8 @@ CONSTANTS
   MAXOPS = 3
   GENBAL = 1000
   BFS = {2}
+  BATCH = "no"
+  OPS = {"dep", "dlg"}
   GEN = FALSE
 VIEW View
 INVARIANTS InvNonNeg
